@@ -1,7 +1,21 @@
-Require Import PPLV.Base.FM PPLV.Base.Sys PPLV.Base.Gens.
+(* Extraction of the verified oracle and the reference models used by the judges.
+   ExtrOcamlBasic only: bool, option, list, prod, unit, sumbool map to OCaml's; Z / positive / nat / Q
+   stay the extracted inductive types. No Extract Constant / Extract Inductive of our own. *)
+From Coq Require Import QArith.
+Require Import PPLV.Base.FM PPLV.Base.Sys PPLV.Base.Gens PPLV.Poly.PolyOps PPLV.Base.Sup PPLV.Poly.PolyQuery.
 Require Extraction.
 Require Import ExtrOcamlBasic.
 Extraction Language OCaml.
 Cd "../ocaml/gen".
-Extraction "base.ml" nonempty_cons incl_cons equiv_cons dd_pair cons_of_gens equiv_sys incl_sys nonempty_sys sys_of_cons elim_vars implies_c implies_e.
+Extraction "base.ml"
+  nonempty_cons incl_cons equiv_cons dd_pair cons_of_gens equiv_sys incl_sys nonempty_sys sys_of_cons
+  elim_vars elim_sys implies_c implies_e simplify
+  union_sys affine_image affine_preimage generalized_affine_image generalized_affine_preimage
+  bounded_affine_image bounded_affine_preimage unconstrain unconstrain_set remove_higher project_dims
+  relax rename_sys concatenate map_dims expand fresh_b lvar ladd lscale lneg
+  sup_expr inf_expr
+  q_is_empty q_is_universe q_contains q_strictly_contains q_is_disjoint q_equals
+  rel_is_disjoint rel_is_included rel_saturates rel_strictly_intersects
+  q_maximize q_minimize q_bounds_above q_bounds_below q_is_bounded q_is_closed q_constrains
+  empty_sys false_sys Qcompare Qeq_bool Qplus Qmult Qminus Qdiv Qopp Qle_bool inject_Z.
 Cd "../../coq".
